@@ -19,6 +19,10 @@ T = {
  'C17': dict(design='4/C17', technique='grammar-based property testing of the loaders: independent kind->value table, round-trip and deep-snapshot (no-mutation) oracles',
              text='Generated network/circuit descriptions over every kind of both loader tables, the three complex notations, and recursively nested JSON/YAML documents; loaded elements are compared with an independent table, every argument is deep-compared before/after each call, loads are repeated. Exploration over generated inputs.',
              note='Trusts json/yaml of the standard environment and my reading of the three complex notations; user dictionaries that collide with the reserved encodings are excluded.'),
+
+ 'C19': dict(design='4/C19', technique='fault injection: complete enumeration of fault class x API x base size x position, each with accepted twins, plus random negative values',
+             text='Every fault class of the statement is injected at every position of valid bases of size 1-4 through every construction/loading API and must raise; the un-faulted twin and the 0/-0.0 boundary twins must be accepted and stored unaltered; unknown ids are queried against all six solution kinds. The enumeration over (class x API x position) is complete for these bases; values are fixed pools plus Hypothesis-generated negatives.',
+             note='Contract is "raises" (any exception type). Dangling ground nodes and unknown waveforms must be rejected at the latest by the first analysis. Base descriptions are fixed templates.'),
 }
 
 DEFAULT_LEVEL = 'exploration'
